@@ -136,10 +136,10 @@ def differential(res, lines, with_model):
     text = '\n'.join(lines) + '\n'
     h = C.build_harness('c19', 'fiber', ['c19.cpp'], define_verif=False)
     outs = {impl: run_stream([h, impl], text) for impl in ('std', 'fiber', 'thread')}
-    drv = os.path.join(C.LEAN, '.lake/build/bin/ymdriver')
+    drv = os.path.join(C.LEAN, '.lake/build/bin/ymdriver_atomic')
     if with_model:
-        outs['model'] = run_stream([drv, 'atomic'], text)
-        outs['spec'] = run_stream([drv, 'atomic-spec'], text)
+        outs['model'] = run_stream([drv, 'model'], text)
+        outs['spec'] = run_stream([drv, 'spec'], text)
     n = len(lines)
     for k, v in outs.items():
         if len(v) != n:
@@ -195,7 +195,7 @@ def run(res, tier):
         broken.append('translator x_atomic failed: ' + xerr)
         ok = False
     else:
-        ok, broken = C.proof_stage(res, 'C19')
+        ok, broken = C.proof_stage(res, 'C19', drivers=['ymdriver_atomic'])
     # ---- correspondence / failing-input search
     nseq = 1500 if tier == 'quick' else 40000
     lines = corpus_lines()
@@ -215,7 +215,7 @@ def run(res, tier):
         ty = rng.choice(types)
         lines += gen_sequence(ty, rng, rng.randrange(1, 14))
     lines += ['new u8 1', 'bogus 1', 'fetch_add', 'new zz 1', 'load']  # malformed stream
-    drv_ok = os.path.exists(os.path.join(C.LEAN, '.lake/build/bin/ymdriver'))
+    drv_ok = os.path.exists(os.path.join(C.LEAN, '.lake/build/bin/ymdriver_atomic'))
     prop_fail, corr_fail, stats, seqs = differential(res, lines, with_model=drv_ok)
     h = C.build_harness('c19', 'fiber', ['c19.cpp'], define_verif=False)
 
